@@ -537,7 +537,7 @@ fn batch(args: &[String]) -> i32 {
             None => break,
         }
     }
-    let recheck_n = runs.min(2000);
+    let recheck_n = if arg(args, "--chunk").is_some() { runs.min(300) } else { runs.min(2000) };
     let mut total = RunStats::default();
     let (mut nruns, mut nontrivial_runs, mut fault_then) = (0u64, 0u64, 0u64);
     let mut traces = BTreeSet::new();
